@@ -48,6 +48,7 @@ func (c19) Assumptions() []string {
 func (c19) Gates(tier string, m map[string]int64) []rt.Gate {
 	return []rt.Gate{
 		rt.GateMin("rounds in which every goroutine runs the same statement text first", m, "rounds_with_a_common_statement", 20),
+		rt.GateMin("rounds in which every goroutine parses JSON documents of its own", m, "rounds_of_json_statements", 20),
 		rt.GateMin("stores whose handed-out memory was checked for damage afterwards", m, "arenas_checked", 100),
 		rt.GateMin("max statements in flight at the same time", m, "max:in_flight", 2),
 		rt.GateMin("rounds with overlapping executions", m, "overlapping_rounds", 20),
@@ -67,7 +68,7 @@ func c19Data(prefix string, n int) []refstore.Pair {
 		case 1:
 			return fmt.Sprintf("v%d,x,%d", i%3, i)
 		case 2:
-			return fmt.Sprintf(`{"x":%d,"y":"s%d"}`, i%4, i%3)
+			return fmt.Sprintf(`{"x":%d,"y":"s%d","id":"%s%d","tag":"t%d"}`, i%4, i%3, prefix, i, i%3) // a document of its own per pair
 		case 3:
 			return fmt.Sprintf("%d.5", i%6)
 		}
@@ -222,6 +223,22 @@ func (k c19) Run(c *rt.Ctx) {
 		}
 		plans[g] = p
 		all = append(all, c19Data(p.prefix, r.Range(10, 40))...)
+	}
+	if r.Chance(1, 5) {
+		// every goroutine parses JSON documents of its own at the same time (several json() calls
+		// per pair): anything the library remembers about "the last document" is then contended
+		jpool := []string{
+			"select key, json(value)['id'], json(value)['x'], json(value)['y'] where key ^= '%[1]s' & value ^= '{' & json(value)['tag'] != 't2'",
+			"select key, json(value)['id'] as id where key ^= '%[1]s' & value ^= '{' & json(value)['x'] >= 1 order by id desc limit 6",
+			"select json(value)['tag'] as t, count(1), group_concat(json(value)['id'], '+') where key ^= '%[1]s' & value ^= '{' group by t",
+			"select key, upper(json(value)['id']) + json(value)['y'] as u where key ^= '%[1]s' & value ^= '{' & json(value)['id'] ^= '%[1]s'",
+		}
+		for _, p := range plans {
+			for i := range p.stmts {
+				p.stmts[i] = fmt.Sprintf(jpool[r.Intn(len(jpool))], p.prefix)
+			}
+		}
+		rec.Inc("rounds_of_json_statements")
 	}
 	if storeMode == "shared-readonly" && r.Chance(2, 3) {
 		// the very same statement text in every goroutine, first in line (they start together):
